@@ -460,7 +460,7 @@ func init() {
 		Level: "exploration",
 		Rule: "metamorphic monitor (options off vs on) + hook ground truth: every program (accepted, rejected by a static error or a token edit, failing at run time) runs through Parse+Execute, Interpret and LoadProg+Execute under all 8 combinations of disassembly, trace and statistics; blocks, binding, error text, log text and the lines printed by the program (introspection lines removed by pattern; programs whose own output matches the patterns count for the result comparison only) must equal the run without options, and no call may panic. " +
 			"The disassembly must list exactly the instruction boundaries found by the independent decoder, each once, in order; the trace must list exactly the pc sequence recorded by the VM hook, with one stack line each, as many as xstats.opsRead. " +
-			"distinct = hash of source; non-trivial = all 8 combinations were compared on at least one route Fixed programs: C10's boundary programs, programs ending in the operand-stack / block-stack overflow errors, block values and 400-byte strings on the stack. Every fourth program also runs with an output writer that fails after k bytes: blocks, binding, error and log must still be the same for all 8 combinations. Another fourth runs with an output writer that refuses exactly one write (the j-th) and recovers: under each of the 8 combinations the bytes the library attempts to write, the refused write included, must equal what a healthy writer receives. Fixed programs also: string constants of 600..2800 bytes made of continuation bytes, 0xFF bytes, cut characters, U+FFFD and multi-byte characters around offsets 512.",
+			"distinct = hash of source; non-trivial = all 8 combinations were compared on at least one route Fixed programs: C10's boundary programs, programs ending in the operand-stack / block-stack overflow errors, block values and 400-byte strings on the stack. Every fourth program also runs with an output writer that fails after k bytes: blocks, binding, error and log must still be the same for all 8 combinations. Another fourth runs with an output writer that refuses exactly one write (the j-th) and recovers: under each of the 8 combinations the bytes the library attempts to write, the refused write included, must equal what a healthy writer receives. Fixed programs also: string constants of 600..2800 bytes made of continuation bytes, 0xFF bytes, cut characters, U+FFFD and multi-byte characters around offsets 512. Every fourth program also runs, under all 8 combinations, with writers whose dynamic type cannot be compared (func adapters, struct values holding a slice) and with one writer for Parse and another for Execute. Four programs whose string repetition overflows the length arithmetic (outside C06's domain) must end the same way with and without options.",
 		Assumptions:   []string{"string values in these programs contain no CR/LF, so introspection text can be separated from program output line by line"},
 		MinNontrivial: 1000,
 		Run: func(c *core.Ctx) {
